@@ -700,6 +700,9 @@ func (m *M) execInstr(f *Frame, instr ssa.Instruction) {
 		f.PC++
 	case *ssa.FieldAddr:
 		p := m.get(f, in.X).(PtrV)
+		if p.Sym != nil {
+			abortf("FieldAddr through a symbolic element pointer")
+		}
 		if p.Obj == 0 {
 			panic(execPanic{msg: "runtime error: invalid memory address or nil pointer dereference"})
 		}
@@ -717,6 +720,28 @@ func (m *M) execInstr(f *Frame, instr ssa.Instruction) {
 		idx := m.get(f, in.Index).(*smt.Term)
 		switch xv := x.(type) {
 		case *ArrayV:
+			// array values with a symbolic index: ite-chain over scalar elements
+			if i64 := m.toInt64(idx, in.Index.Type()); !i64.IsConst() && len(xv.E) >= 2 {
+				allScalar := true
+				for _, e := range xv.E {
+					if _, ok := e.(*smt.Term); !ok {
+						allScalar = false
+					}
+				}
+				if allScalar {
+					inb := smt.And(smt.BVSle(smt.BVC(64, 0), i64), smt.BVSlt(i64, smt.BVC(64, uint64(len(xv.E)))))
+					if !m.Decide(inb) {
+						panic(execPanic{msg: "runtime error: index out of range"})
+					}
+					r := xv.E[len(xv.E)-1].(*smt.Term)
+					for k := len(xv.E) - 2; k >= 0; k-- {
+						r = smt.Ite(smt.Eq(i64, smt.BVC(64, uint64(k))), xv.E[k].(*smt.Term), r)
+					}
+					m.set(f, in, r)
+					f.PC++
+					return
+				}
+			}
 			i := m.boundedIndex(idx, in.Index.Type(), len(xv.E))
 			m.set(f, in, xv.E[i])
 		case StrV:
@@ -1007,16 +1032,57 @@ func (m *M) boundedIndex(idx *smt.Term, ty types.Type, n int) int {
 	return m.chooseInt(i64, 0, n, "index")
 }
 
+// symElemPtr: a symbolic element pointer when the index is symbolic and all n elements are scalars of one sort.
+func (m *M) symElemPtr(obj int, path []int, off, n int, idx *smt.Term, ity types.Type) (PtrV, bool) {
+	i64 := m.toInt64(idx, ity)
+	if i64.IsConst() || n < 2 || n > 1024 {
+		return PtrV{}, false
+	}
+	arr, ok := descend(m.st.Heap[obj], path).(*ArrayV)
+	if !ok {
+		return PtrV{}, false
+	}
+	var srt *smt.Sort
+	for k := 0; k < n; k++ {
+		t, ok := arr.E[off+k].(*smt.Term)
+		if !ok {
+			return PtrV{}, false
+		}
+		if srt == nil {
+			s := t.Sort
+			srt = &s
+		} else if *srt != t.Sort {
+			return PtrV{}, false
+		}
+	}
+	in := smt.And(smt.BVSle(smt.BVC(64, 0), i64), smt.BVSlt(i64, smt.BVC(64, uint64(n))))
+	if !m.Decide(in) {
+		panic(execPanic{msg: fmt.Sprintf("runtime error: index out of range [sym] with length %d", n)})
+	}
+	return PtrV{Obj: obj, Path: path, Sym: i64, Off: off, N: n}, true
+}
+
 func (m *M) indexAddr(x Value, idx *smt.Term, ity types.Type) Value {
 	switch xv := x.(type) {
 	case SliceV:
+		if !xv.Nil {
+			if p, ok := m.symElemPtr(xv.Obj, xv.Path, xv.Off, xv.Len, idx, ity); ok {
+				return p
+			}
+		}
 		i := m.boundedIndex(idx, ity, xv.Len)
 		return PtrV{Obj: xv.Obj, Path: pathAppend(xv.Path, xv.Off+i)}
 	case PtrV:
 		if xv.Obj == 0 {
 			panic(execPanic{msg: "runtime error: invalid memory address or nil pointer dereference"})
 		}
+		if xv.Sym != nil {
+			abortf("IndexAddr through a symbolic element pointer")
+		}
 		arr := m.st.load(xv).(*ArrayV)
+		if p, ok := m.symElemPtr(xv.Obj, xv.Path, 0, len(arr.E), idx, ity); ok {
+			return p
+		}
 		i := m.boundedIndex(idx, ity, len(arr.E))
 		return PtrV{Obj: xv.Obj, Path: pathAppend(xv.Path, i)}
 	}
